@@ -21,7 +21,7 @@ META = {
     "design_ref": "DESIGN.md §3 C34",
     "rule": "case = initial contents + 1..30 operations over OrderedSet/FrozenOrderedSet with arguments given as list/tuple/set/"
             "frozenset/dict/one-shot iterator/generator/ordered set; non-trivial = history reaches >= 3 elements and uses a one-shot "
-            "iterable or a negative index or a multi-argument set operation; distinct by the whole history",
+            "iterable or a negative index or a multi-argument set operation or continues with a set derived earlier (freeze/copy/constructor) while the others are re-checked; distinct by the whole history",
     "assumptions": ["element equality/hash are Python's own (ints, bools, floats, strs, tuples, None)",
                     "which of two equal objects (1 vs True) is kept is not constrained"],
     "level_text": "Generated histories against an executable reference model; every public operation of the ordered sets, all "
@@ -34,7 +34,7 @@ PLAN = {
 }
 
 ELEMS = [0, 1, 2, 3, 4, 5, 6, True, 1.0, "a", "b", "", (1, 2), None, -1]
-KINDS = ["list", "tuple", "set", "frozenset", "dict", "iter", "gen", "oset", "foset"]
+KINDS = ["list", "tuple", "set", "frozenset", "dict", "iter", "gen", "oset", "foset", "self"]
 elem = st.integers(0, len(ELEMS) - 1)
 iterable = st.fixed_dictionaries({"kind": st.sampled_from(KINDS), "items": st.lists(elem, max_size=6)})
 
@@ -57,6 +57,8 @@ def _op() -> st.SearchStrategy:
         st.tuples(st.sampled_from(PURE_ELEM), elem, flavour),
         st.tuples(st.just("getitem"), st.integers(-9, 9), flavour),
         st.tuples(st.sampled_from(["reversed", "copy", "len", "hash", "repr_roundtrip"]), flavour),
+        st.tuples(st.just("keep"), st.sampled_from(["freeze", "copy", "frozen_of_frozen", "mutable_of_frozen", "mutable_of_mutable"])),
+        st.tuples(st.just("swap"), st.integers(0, 7)),
     ).map(list)
 
 
@@ -72,12 +74,16 @@ def _dedup(xs: list) -> list:
     return out
 
 
-def _materialise(spec: dict[str, Any]):
+def _materialise(spec: dict[str, Any], real=None, model=None):
     """Returns (real argument, the element order in which that argument will be iterated)."""
     from pynguin.utils.orderedset import FrozenOrderedSet, OrderedSet
 
     items = [ELEMS[i] for i in spec["items"]]
     k = spec["kind"]
+    if k == "self":  # the set itself as argument (s.difference_update(s), s | s, ...)
+        if real is None:
+            return list(items), list(items)
+        return real, list(model)
     if k == "list":
         return list(items), list(items)
     if k == "tuple":
@@ -112,8 +118,9 @@ def evaluate(case: dict[str, Any]) -> Outcome:
     if list(real) != model:
         out.fail(f"init|{case['init']['kind']}|wrong-state", f"{list(real)!r} != {model!r}")
         return out
-    used_oneshot = used_neg = used_multi = False
+    used_oneshot = used_neg = used_multi = used_alias = False
     max_len = len(model)
+    kept: list[tuple[Any, list]] = []  # objects derived earlier + the contents they must keep
 
     def target(flavour: str):
         return real if flavour == "mutable" else real.freeze()
@@ -146,7 +153,7 @@ def evaluate(case: dict[str, Any]) -> Outcome:
             elif name in MUT_ITER1:
                 akind = op[1]["kind"]
                 used_oneshot |= akind in ("iter", "gen")
-                a, order = _materialise(op[1])
+                a, order = _materialise(op[1], real, model)
                 oset = set(order)
                 if name in ("update", "ior"):
                     new = model + [x for x in order if x not in model]
@@ -172,7 +179,7 @@ def evaluate(case: dict[str, Any]) -> Outcome:
                 else:
                     real ^= a
             elif name == "difference_update":
-                mats = [_materialise(s) for s in op[1]]
+                mats = [_materialise(s, real, model) for s in op[1]]
                 akind = f"{len(op[1])}-iterables"
                 used_oneshot |= any(s["kind"] in ("iter", "gen") for s in op[1])
                 used_multi |= len(op[1]) >= 2
@@ -192,10 +199,42 @@ def evaluate(case: dict[str, Any]) -> Outcome:
             elif name == "clear":
                 real.clear()
                 model = []
+            elif name == "keep":
+                how = op[1]
+                akind = how
+                if how == "freeze":
+                    obj = real.freeze()
+                elif how == "copy":
+                    import copy as _copy
+
+                    obj = _copy.copy(real)
+                elif how == "frozen_of_frozen":
+                    obj = FrozenOrderedSet(real.freeze())
+                elif how == "mutable_of_frozen":
+                    fz = real.freeze()
+                    kept.append((fz, list(model)))
+                    obj = OrderedSet(fz)
+                else:
+                    obj = OrderedSet(real)
+                kept.append((obj, list(model)))
+                kept[:] = kept[-8:]
+            elif name == "swap":
+                if kept:
+                    used_alias = True
+                    i = op[1] % len(kept)
+                    obj, exp = kept[i]
+                    akind = type(obj).__name__
+                    if isinstance(obj, OrderedSet):
+                        kept[i] = (real, list(model))
+                        real, model = obj, list(exp)
+                    else:  # a frozen set stays as it is; continue with a mutable set built from it
+                        kept.append((real, list(model)))
+                        kept[:] = kept[-8:]
+                        real, model = OrderedSet(obj), list(exp)
             elif name in PURE_ITER1:
                 akind = op[1]["kind"]
                 used_oneshot |= akind in ("iter", "gen")
-                a, order = _materialise(op[1])
+                a, order = _materialise(op[1], real, model)
                 oset = set(order)
                 t = target(op[2])
                 check_result = True
@@ -225,7 +264,7 @@ def evaluate(case: dict[str, Any]) -> Outcome:
                     expected = model == _dedup(order)
                     got = t == other
             elif name in PURE_ITERN:
-                mats = [_materialise(s) for s in op[1]]
+                mats = [_materialise(s, real, model) for s in op[1]]
                 akind = f"{len(op[1])}-iterables"
                 used_oneshot |= any(s["kind"] in ("iter", "gen") for s in op[1])
                 used_multi |= len(op[1]) >= 2
@@ -302,9 +341,16 @@ def evaluate(case: dict[str, Any]) -> Outcome:
         if list(real) != model or len(real) != len(model):
             out.fail(f"{name}|{akind}|wrong-state", f"op={op!r}: real {list(real)!r} != model {model!r}")
             return out
+        for obj, exp in kept:
+            if list(obj) != exp or len(obj) != len(exp) or (isinstance(obj, FrozenOrderedSet) and hash(obj) != hash(FrozenOrderedSet(exp))):
+                out.fail(f"{name}|{akind}|changed-another-set:{type(obj).__name__}",
+                         f"op={op!r} changed a {type(obj).__name__} derived earlier: {list(obj)!r}, expected {exp!r}")
+                return out
         max_len = max(max_len, len(model))
         out.labels.append(name)
-    out.nontrivial = max_len >= 3 and (used_oneshot or used_neg or used_multi)
+    out.nontrivial = max_len >= 3 and (used_oneshot or used_neg or used_multi or used_alias)
+    if used_alias:
+        out.labels.append("class:continued-with-derived-set")
     if used_oneshot:
         out.labels.append("class:one-shot-iterable")
     if used_neg:
